@@ -19,6 +19,7 @@ from .. import patch, tlc
 from ..common import Check, scratch, scratch_root
 
 LEVEL = "model_checking"
+RULE = ('cases = LinePipe.tla documents (lines x matches x finding x eol x final newline x dry-run) and XmlDocs.tla documents (items x selection x doctype); non-trivial when at least one line/element matches; distinct = distinct documents')
 
 
 def _ctx(directory: Path, dry: bool):
